@@ -201,7 +201,25 @@ pub fn c11_t09<N: Nd>(nd: &mut N) {
     crate::cover!(m.altitude.is_none() && m.speed_over_ground.is_none(), "t9 sentinels reachable");
 }
 
-/// type 15: slot offset 0 = absent
+/// type 15: slot offset 0 = absent, every other value present - in the 88-, 110- and 160-bit forms
+pub fn c11_t15_88<N: Nd>(nd: &mut N) {
+    use ais::messages::interrogation::Interrogation;
+    let d: [u8; 11] = nd.bytes();
+    let m = must!(Interrogation::parse(&d), "an 88-bit type 15 payload must decode");
+    assert!(m.stations.len() == 1 && m.stations[0].messages.len() == 1, "C11 t15/88 structure");
+    c11_int!(m.stations[0].messages[0].slot_offset, raw_u(&d, 76, 12), 0, "C11 t15 slot offset 1.1 (88-bit form)");
+    crate::cover!(m.stations[0].messages[0].slot_offset == Some(1), "t15/88 present offset reachable");
+}
+pub fn c11_t15_110<N: Nd>(nd: &mut N) {
+    use ais::messages::interrogation::Interrogation;
+    let d: [u8; 14] = nd.bytes();
+    nd.assume(bits(&d, 90, 6) != 0);
+    let m = must!(Interrogation::parse(&d), "a 110-bit type 15 payload must decode");
+    assert!(m.stations.len() == 1 && m.stations[0].messages.len() == 2, "C11 t15/110 structure");
+    c11_int!(m.stations[0].messages[0].slot_offset, raw_u(&d, 76, 12), 0, "C11 t15 slot offset 1.1 (110-bit form)");
+    c11_int!(m.stations[0].messages[1].slot_offset, raw_u(&d, 96, 12), 0, "C11 t15 slot offset 1.2 (110-bit form)");
+    crate::cover!(m.stations[0].messages[1].slot_offset.is_none(), "t15/110 absent offset reachable");
+}
 pub fn c11_t15<N: Nd>(nd: &mut N) {
     use ais::messages::interrogation::Interrogation;
     let d: [u8; 20] = nd.bytes();
@@ -410,7 +428,7 @@ pub mod wp {
     use super::*;
     crate::harnesses!(LP; plain; unwind 6;
         c10_leaf_lon, c10_leaf_lat, c10_leaf_sog_cog,
-        c10_t01, c11_t01, c10_t04, c11_t04, c10_t11, c11_t11, c10_t09, c11_t09, c11_t15, c10_t17,
+        c10_t01, c11_t01, c10_t04, c11_t04, c10_t11, c11_t11, c10_t09, c11_t09, c11_t15, c11_t15_88, c11_t15_110, c10_t17,
         c10_t18, c11_t18, c10_t27, c11_t27, c10_t27_lon, c10_t27_lat, c10_t27_sogcog);
 }
 pub mod wn {
